@@ -756,8 +756,74 @@ func genVals(r *rand.Rand, n int) []uint32 {
 
 // trieCase: build, dump the encoding, query, reload through Write/UnmarshalBinary, query again.
 func trieCase(c *core.Ctx, r *rand.Rand, keys [][]byte, vals []uint32, probes [][]byte, big bool) {
-	m := &smap{keys: keys, vals: vals}
+	trieCaseOn(c, r, trie.NewBuilder(), keys, vals, probes, big)
+}
+
+// reusedBuilderCase: ONE builder first builds and serialises a LARGER dictionary, is Reset, and then
+// builds the case's (smaller) dictionary; everything — in particular the serialised bytes, the
+// reloaded trie and absent seek / prefix probes to the right of the last key — must be as with a
+// fresh builder.
+func reusedBuilderCase(c *core.Ctx, r *rand.Rand, tier string) {
+	bigKeys, _ := genKeys(r, tier, r.Intn(3) == 0)
+	for len(bigKeys) < 80 {
+		bigKeys = append(bigKeys, []byte(fmt.Sprintf("zz-extra-%04d", len(bigKeys))))
+	}
+	sort.Slice(bigKeys, func(i, j int) bool { return bytes.Compare(bigKeys[i], bigKeys[j]) < 0 })
+	if len(bigKeys[0]) == 0 && len(bigKeys) == 1 {
+		return
+	}
+	bigVals := genVals(r, len(bigKeys))
 	b := trie.NewBuilder()
+	okPre := false
+	c.Guard("pre"+buildLine(bigKeys, bigVals), func() string {
+		b.Build(bigKeys, bigVals)
+		var sink bytes.Buffer
+		if err := b.Write(&sink); err != nil {
+			return "write-error"
+		}
+		b.Reset()
+		okPre = true
+		return "ok"
+	})
+	if !okPre {
+		return
+	}
+	// a much smaller dictionary on the same builder
+	small := make([][]byte, 0, 40)
+	n := 1 + r.Intn(40)
+	if n > len(bigKeys)/2 {
+		n = len(bigKeys) / 2
+	}
+	seen := map[string]bool{}
+	for len(small) < n {
+		var k []byte
+		if r.Intn(2) == 0 {
+			k = bigKeys[r.Intn(len(bigKeys))]
+		} else {
+			k = randKey(r, smallAlpha, 4)
+		}
+		if len(k) == 0 && n == 1 {
+			k = []byte("a")
+		}
+		if !seen[string(k)] {
+			seen[string(k)] = true
+			small = append(small, clone(k))
+		}
+	}
+	sort.Slice(small, func(i, j int) bool { return bytes.Compare(small[i], small[j]) < 0 })
+	if len(small) == 1 && len(small[0]) == 0 {
+		small[0] = []byte("a")
+	}
+	probes := genProbes(r, small, 20)
+	last := small[len(small)-1]
+	probes = append(probes, append(clone(last), 0xff), append(clone(last), 0x00), []byte{0xff, 0xff, 0xff},
+		append(clone(last[:len(last)/2]), 0xff, 0xff))
+	c.Branch("reused-builder-large-then-small")
+	trieCaseOn(c, r, b, small, genVals(r, len(small)), probes, false)
+}
+
+func trieCaseOn(c *core.Ctx, r *rand.Rand, b trie.Builder, keys [][]byte, vals []uint32, probes [][]byte, big bool) {
+	m := &smap{keys: keys, vals: vals}
 	ok := false
 	c.Guard(buildLine(keys, vals), func() string {
 		b.Build(keys, vals)
@@ -1952,6 +2018,8 @@ func (area) Run(c *core.Ctx) error {
 		switch {
 		case i%10 == 7:
 			bitvecCase(c, r)
+		case i%40 == 39:
+			reusedBuilderCase(c, r, c.Tier)
 		case i%30 == 8:
 			mergerSessionCase(c, r, c.Tier)
 		case i%10 == 3 || i%10 == 8:
